@@ -154,8 +154,134 @@ def _write(name, text):
             fh.write(text)
 
 
+INPLACE_FILES = ['whittaker', 'spline', 'polynomial', 'morphological', 'smooth', 'classification', 'misc', 'optimizers',
+                 'two_d/whittaker', 'two_d/spline', 'two_d/polynomial', 'two_d/morphological', 'two_d/smooth', 'two_d/optimizers']
+FRESH_CALLS = {'empty', 'zeros', 'ones', 'full', 'array', 'copy', 'empty_like', 'zeros_like', 'ones_like', 'full_like', 'arange', 'linspace',
+               'concatenate', 'pad', 'where', 'minimum', 'maximum', 'mean', 'sqrt', 'abs', 'exp', 'vstack', 'hstack', 'asarray_copy',
+               'defaultdict', 'dict', 'list', 'logspace', 'polyvander', 'interp', 'unique', 'flatnonzero', 'diff', 'gradient', 'roll'}
+MUTATORS = {'sort', 'fill', 'resize', 'put', 'itemset', 'update', 'pop', 'setdefault', 'clear', 'popitem', 'append', 'extend', 'partition', 'byteswap'}
+
+
+def _origin_of(fn, name):
+    """where a local name of a method body comes from: param | setup:<pos>:<copyflag> | fresh | unknown"""
+    params = [a.arg for a in fn.args.args + fn.args.kwonlyargs]
+    origin = 'param' if name in params else 'unknown'
+    for node in ast.walk(fn):
+        if not isinstance(node, ast.Assign):
+            continue
+        for tgt in node.targets:
+            names = []
+            if isinstance(tgt, ast.Name):
+                names = [(tgt.id, None)]
+            elif isinstance(tgt, ast.Tuple):
+                names = [(e.id, i) for i, e in enumerate(tgt.elts) if isinstance(e, ast.Name)]
+            for nm, pos in names:
+                if nm != name:
+                    continue
+                v = node.value
+                if isinstance(v, ast.Call) and isinstance(v.func, ast.Attribute) and v.func.attr.startswith('_setup_'):
+                    src = ast.unparse(v)
+                    copyflag = 'copy_weights=True' in src or (v.func.attr == '_setup_optimizer' and
+                                                              (len(v.args) >= 5 and ast.unparse(v.args[4]) == 'True' or 'copy_kwargs=True' in src))
+                    origin = f'setup:{v.func.attr[7:]}:{pos if pos is not None else 0}:{int(copyflag)}'
+                elif isinstance(v, ast.Call):
+                    f = v.func
+                    fname = f.attr if isinstance(f, ast.Attribute) else (f.id if isinstance(f, ast.Name) else '')
+                    origin = 'fresh' if fname in FRESH_CALLS else ('unknown' if origin in ('unknown',) else origin)
+                elif isinstance(v, (ast.BinOp, ast.UnaryOp, ast.Compare, ast.List, ast.Dict, ast.ListComp, ast.Constant, ast.BoolOp)):
+                    origin = 'fresh'
+                elif isinstance(v, ast.Name):
+                    origin = _origin_of(fn, v.id) if v.id != name else origin     # plain aliasing
+                elif isinstance(v, ast.Subscript):
+                    origin = 'view:' + (v.value.id if isinstance(v.value, ast.Name) else '?')
+    return origin
+
+
+def gen_inplace():
+    """conservative AST scan of the registered methods for in-place writes (C13)"""
+    rows, fails = [], []
+    for rel in INPLACE_FILES:
+        path = os.path.join(common.REPO, 'pybaselines', rel + '.py')
+        try:
+            tree = ast.parse(open(path).read())
+        except Exception as e:
+            fails.append(f'Inplace:{rel}: cannot parse ({e})')
+            continue
+        for cls in [n for n in tree.body if isinstance(n, ast.ClassDef)]:
+            for fn in [n for n in cls.body if isinstance(n, ast.FunctionDef)]:
+                if not any('_register' in ast.unparse(d) for d in fn.decorator_list):
+                    continue
+                meth = ('2d.' if rel.startswith('two_d') else '') + fn.name
+                for node in ast.walk(fn):
+                    hits = []
+                    if isinstance(node, ast.Assign):
+                        for tt in node.targets:
+                            if isinstance(tt, ast.Subscript) and isinstance(tt.value, ast.Name):
+                                hits.append((tt.value.id, 'setitem'))
+                    elif isinstance(node, ast.AugAssign):
+                        v = node.target
+                        if isinstance(v, ast.Name):
+                            hits.append((v.id, 'augassign'))
+                        elif isinstance(v, ast.Subscript) and isinstance(v.value, ast.Name):
+                            hits.append((v.value.id, 'augassign'))
+                    elif isinstance(node, ast.Call):
+                        for kw in node.keywords:
+                            if kw.arg in ('out', 'output') and isinstance(kw.value, ast.Name):
+                                hits.append((kw.value.id, 'out'))
+                            if kw.arg in ('overwrite_b', 'overwrite_ab', 'overwrite_a', 'overwrite_x') and isinstance(kw.value, ast.Constant) and kw.value.value is True:
+                                for a in node.args:
+                                    if isinstance(a, ast.Name):
+                                        hits.append((a.id, 'overwrite'))
+                        if isinstance(node.func, ast.Attribute) and node.func.attr in MUTATORS and isinstance(node.func.value, ast.Name):
+                            hits.append((node.func.value.id, 'mutator'))
+                        if isinstance(node.func, ast.Attribute) and node.func.attr in ('copyto', 'put', 'place', 'putmask') and node.args and isinstance(node.args[0], ast.Name):
+                            hits.append((node.args[0].id, 'copyto'))
+                    for name, kind in hits:
+                        if name in ('self', 'params', 'np'):
+                            continue
+                        rows.append((meth, name, _origin_of(fn, name), kind))
+    rows = sorted(set(rows))
+
+    def tkind(t):
+        if t in ('data', 'y', 'y0'):
+            return 'data'
+        if t in ('weights', 'weight_array', 'w_user', 'sqrt_w_user'):
+            return 'weights'
+        if t in ('alpha', 'alpha_array'):
+            return 'alpha'
+        if t in ('baseline_points',):
+            return 'points'
+        if t.endswith('kwargs') or t.endswith('_kws'):
+            return 'kwargs'
+        return 'other'
+
+    def okind(o):
+        if o == 'fresh':
+            return 'fresh'
+        if o.startswith('setup:'):
+            return 'setupCopy' if o.endswith(':1') else 'setupNoCopy'
+        if o == 'param':
+            return 'param'
+        if o.startswith('view:'):
+            return 'view'
+        return 'unknown'
+    lines = ['import PbVerif.Model.Own',
+             '/-! GENERATED on every run by harness/pbv/translate.py: in-place writes found in the registered methods — do not edit. -/',
+             'namespace PbVerif.Gen', '',
+             'inductive TKind | data | weights | alpha | points | kwargs | other', 'deriving DecidableEq, Repr',
+             'inductive Origin | fresh | setupCopy | setupNoCopy | param | view | unknown', 'deriving DecidableEq, Repr', '',
+             'structure InplaceRow where', '  method : String', '  target : String', '  tkind : TKind', '  origin : Origin', '  kind : String', 'deriving Repr', '',
+             'def inplaceTable : List InplaceRow := [']
+    lines.append(',\n'.join(f'  ⟨"{m}", "{t}", .{tkind(t)}, .{okind(o)}, "{k}"⟩' for m, t, o, k in rows))
+    lines += [']', '', f'def inplaceTranslated : Bool := {"true" if not fails else "false"}', '', 'end PbVerif.Gen', '']
+    _write('Inplace.lean', '\n'.join(lines))
+    return fails, rows
+
+
 def regenerate():
     fails = []
     f, _ = gen_diags()
+    fails += f
+    f, _ = gen_inplace()
     fails += f
     return fails
